@@ -29,7 +29,8 @@ theorem ib_getLast (next k : Nat) (p : Bytes) (ps : List Bytes) :
 
 theorem appendEntries_ib (w : Writer) (next k : Nat) (ps : List Bytes)
     (hnext : next + k = w.info.base + w.offsets.length)
-    (hb : w.writeOffset + w.commitBuf.length + (encEntries ps).length < 2^32) :
+    (hb : w.writeOffset + w.commitBuf.length + (encEntries ps).length < 2^32)
+    (hmax : ∀ p ∈ ps, p.length ≤ maxEntrySize) :
     w.appendEntries (ib next k ps)
       = .ok { w with offsets := w.offsets ++ offs (w.writeOffset + w.commitBuf.length) ps
                    , commitBuf := w.commitBuf ++ encEntries ps
@@ -39,10 +40,12 @@ theorem appendEntries_ib (w : Writer) (next k : Nat) (ps : List Bytes)
   | cons p ps ih =>
     simp only [encEntries, List.length_append, specEntryFrame_length] at hb
     have hp : p.length < 2^32 := by rw [encodedFrameSize_eq] at hb; have := roundUp8_ge p.length; omega
-    rw [ib_cons, Writer.appendEntries, Writer.appendEntry, if_neg (by omega)]
+    have hpm : p.length ≤ maxEntrySize := hmax p List.mem_cons_self
+    rw [ib_cons, Writer.appendEntries, Writer.appendEntry, if_neg (by omega), if_neg (by omega)]
     simp only
     rw [ih _ (k+1) (by simp only [List.length_append, List.length_cons, List.length_nil]; omega)
-      (by simp only [List.length_append, entryFrame_eq p hp, specEntryFrame_length]; omega)]
+      (by simp only [List.length_append, entryFrame_eq p hp, specEntryFrame_length]; omega)
+      (fun q hq => hmax q (List.mem_cons_of_mem _ hq))]
     have hu : u32 (w.writeOffset + u32 w.commitBuf.length) = w.writeOffset + w.commitBuf.length := by
       unfold u32; rw [Nat.mod_eq_of_lt (a := w.commitBuf.length) (by omega), Nat.mod_eq_of_lt (by omega)]
     simp only [hu, entryFrame_eq p hp, List.length_append, specEntryFrame_length, offs, encEntries, List.append_assoc,
@@ -88,14 +91,15 @@ theorem appendIndex_ok (w : Writer) (h : w.offsets ≠ []) :
 theorem append_ok (w : Writer) (file : Bytes) (ps : List Bytes) (next : Nat)
     (hidx : w.indexStart = 0) (hps : ps ≠ [])
     (hnext : next = w.info.base + w.offsets.length)
-    (hb : w.writeOffset + w.commitBuf.length + (encEntries ps).length + (Spec.indexFrame (w.os1 ps)).length + 8 < 2^32) :
+    (hb : w.writeOffset + w.commitBuf.length + (encEntries ps).length + (Spec.indexFrame (w.os1 ps)).length + 8 < 2^32)
+    (hmax : ∀ p ∈ ps, p.length ≤ maxEntrySize) :
     ∃ s : Bool, w.append file (indexBatch next ps) .none
       = (none, w.after ps s next, writeAt file w.writeOffset (w.outBuf ps s)) := by
   obtain ⟨p, ps', rfl⟩ := List.exists_cons_of_ne_nil hps
   have hne : (indexBatch next (p :: ps')).isEmpty = false := by
     rw [indexBatch_eq, ib_cons]; rfl
   have hos : (w.os1 (p :: ps')) ≠ [] := by simp [Writer.os1, offs]
-  have h1 := appendEntries_ib w next 0 (p :: ps') (by omega) (by omega)
+  have h1 := appendEntries_ib w next 0 (p :: ps') (by omega) (by omega) hmax
   rw [append_unfold w _ file _ hne hidx (by rw [indexBatch_eq]; exact h1), indexBatch_eq, ib_getLast]
   have hu : ∀ n, w.writeOffset + n < 2^32 → u32 (w.writeOffset + u32 n) = w.writeOffset + n := by
     intro n hn
@@ -136,6 +140,74 @@ theorem append_sealed (w : Writer) (file : Bytes) (ps : List Bytes) (next : Nat)
   rw [Writer.append, hne]
   simp only [Bool.false_eq_true, if_false]
   rw [if_pos hidx]
+
+/-! ## a successful `Append` only carries payloads of at most `maxEntrySize` bytes -/
+
+theorem appendEntries_ok_le (w w1 : Writer) (es : List (Nat × Bytes)) (h : w.appendEntries es = .ok w1) :
+    ∀ e ∈ es, e.2.length ≤ maxEntrySize := by
+  induction es generalizing w with
+  | nil => intro e he; cases he
+  | cons x es ih =>
+    obtain ⟨i, d⟩ := x
+    rw [Writer.appendEntries] at h
+    cases hw : w.appendEntry i d with
+    | error e => rw [hw] at h; cases h
+    | ok w2 =>
+      rw [hw] at h
+      intro e he
+      rcases List.mem_cons.mp he with rfl | he
+      · rw [Writer.appendEntry] at hw
+        by_cases hd : d.length > maxEntrySize
+        · rw [if_pos hd] at hw; cases hw
+        · exact Nat.le_of_not_lt hd
+      · exact ih w2 h e he
+
+theorem append_none_le (w : Writer) (file : Bytes) (entries : List (Nat × Bytes)) (w' : Writer) (file' : Bytes)
+    (h : w.append file entries .none = (none, w', file')) : ∀ e ∈ entries, e.2.length ≤ maxEntrySize := by
+  rw [Writer.append] at h
+  split at h
+  · rename_i he
+    intro e hm
+    rw [List.isEmpty_iff.mp he] at hm; cases hm
+  · split at h
+    · cases h
+    · split at h
+      · cases h
+      · rename_i w1 h1
+        exact appendEntries_ok_le w w1 entries h1
+
+theorem ib_map_snd (next k : Nat) (ps : List Bytes) : (ib next k ps).map (·.2) = ps := by
+  induction ps generalizing k with
+  | nil => rfl
+  | cons p ps ih => rw [ib_cons, List.map_cons, ih]
+
+theorem append_indexBatch_le (w : Writer) (file : Bytes) (next : Nat) (ps : List Bytes) (w' : Writer) (file' : Bytes)
+    (h : w.append file (indexBatch next ps) .none = (none, w', file')) : ∀ p ∈ ps, p.length ≤ maxEntrySize := by
+  intro p hp
+  rw [← ib_map_snd next 0 ps, ← indexBatch_eq] at hp
+  obtain ⟨e, he, rfl⟩ := List.mem_map.mp hp
+  exact append_none_le w file _ w' file' h e he
+
+theorem appendAll_cons_some (w : Writer) (file : Bytes) (next : Nat) (b : List Bytes) (bs : List (List Bytes))
+    (r : Writer × Bytes) (h : w.appendAll file next (b :: bs) = some r) :
+    ∃ w1 f1, w.append file (indexBatch next b) .none = (none, w1, f1) ∧ w1.appendAll f1 (next + b.length) bs = some r := by
+  rw [Writer.appendAll] at h
+  split at h
+  · cases h
+  · rename_i w1 f1 heq
+    exact ⟨w1, f1, heq, h⟩
+
+/-- a successful run only carries payloads of at most `maxEntrySize` bytes (the writer refuses larger ones) -/
+theorem appendAll_payload_le (w : Writer) (file : Bytes) (next : Nat) (bs : List (List Bytes)) (w' : Writer) (file' : Bytes)
+    (h : w.appendAll file next bs = some (w', file')) : ∀ b ∈ bs, ∀ p ∈ b, p.length ≤ maxEntrySize := by
+  induction bs generalizing w file next with
+  | nil => intro b hb; cases hb
+  | cons b bs ih =>
+    obtain ⟨w1, f1, h1, h2⟩ := appendAll_cons_some w file next b bs _ h
+    intro x hx
+    rcases List.mem_cons.mp hx with rfl | hx
+    · exact append_indexBatch_le w file next _ w1 f1 h1
+    · exact ih w1 f1 _ h2 x hx
 
 /-! ## invariant between the writer and the README layout fold -/
 
@@ -243,7 +315,9 @@ theorem run_inv (info : SegInfo) (bs : List (List Bytes)) (hne : ∀ b ∈ bs, b
       rw [specIndexFrame_length, hinv.os1, encodedFrameSize_eq, List.length_append, offs_length]
       have := roundUp8_lt (4 * (a.offsets.length + b.length)); omega
     have hbpos : 0 < b.length := List.length_pos_iff.mpr hbne
-    obtain ⟨s, hap⟩ := append_ok w file b next hidx hbne (by rw [hinv.info, hinv.offsEq]; exact hnext) (by omega)
+    have hmaxb : ∀ p ∈ b, p.length ≤ maxEntrySize :=
+      appendAll_payload_le w file next (b :: rest) w' file' hrun b List.mem_cons_self
+    obtain ⟨s, hap⟩ := append_ok w file b next hidx hbne (by rw [hinv.info, hinv.offsEq]; exact hnext) (by omega) hmaxb
     rw [Writer.appendAll, hap] at hrun
     simp only at hrun
     have hstep := hinv.step b s next
